@@ -461,6 +461,42 @@ def c05(tier, seed):
     it_cfgs = [double_tie_config(seed), double_tie_config(seed + 3)] + _graphs(seed + 550, 2 if quick else 8)
     it_hists = [["reset", "step", "step", "stop"], ["run", "run", "run", "stop"], ["run", "stop", "reset", "step", "stop"], ["reset", "stop"],
                 ["stop", "run", "stop", "stop", "reset", "step", "stop"]]
+    # the other clock: the same lifecycle histories under Clock.WALL_CLOCK (gate, strictly increasing virtual time, every step sleeps)
+    wjobs = []
+    for i, cfg in enumerate(_graphs(seed + 550, 2 if quick else 10)):
+        runs = [dict(history=h, sched=dict(seed=seed * 1000 + 37 * i + k + s * 101, policy=POLICIES[(k + i + s) % 5]))
+                for s in range(1 if quick else 3) for k, (hn, h) in enumerate(C05_HISTORIES.items())]
+        wjobs.append(dict(kind="pyfunc", module="harness.order", func="wall_lifecycle_job", id=f"c05w{i}", cfg=cfg, seed=seed + i, runs=runs, timeout=1200))
+    wres = common.run_jobs(wjobs, timeout=1500)
+    wtraces, wstats = [], dict(histories=0, completed_episodes=0)
+    for r in wres:
+        if not r.get("ok"):
+            if r.get("timeout"):
+                rep.note(f"wall-clock lifecycle job {r['job']['id']} exceeded its wall-clock budget (inconclusive)")
+                continue
+            raise common.MachineryError(r.get("error", "")[-2500:])
+        for run in r["runs"]:
+            wstats["histories"] += 1
+            lifecycle_runs[0] += 1
+            for ev in run["events"]:
+                if not on_event(ev, r["job"], run):
+                    rep.note(f"{r['job']['id']}: {ev['kind']}: {ev['detail'][:200]}")
+            for t in run["traces"]:
+                wtraces.append((r["job"], run, t))
+    if wtraces:
+        wvs, wst = engine.validate_parallel([t for _, _, t in wtraces], module="RexOrder")
+        rep.add_tlc(wst)
+        rep.cov["traces_validated_against_impl"] += len(wtraces)
+        for (job, run, t), v in zip(wtraces, wvs):
+            if v["verdict"] == "accept":
+                wstats["completed_episodes"] += 1
+                continue
+            if v["clause"] in ("StepSeqGapFree", "MsgSeqGapFree"):   # an episode that does not start from sequence number 0
+                rep.violation(dict(kind="wall_clock_isolation", clause=v["clause"]), dict(kind="wall_lifecycle", job={k: job[k] for k in job if k != "runs"}, run=dict(history=run["history"], sched=run["sched"]), verdict=v),
+                              text=f"{t['id']} (wall clock) history={run['history']}: {v['detail'][:400]}")
+            else:
+                rep.note(f"wall-clock episode {t['id']} rejected by RexOrder clause {v['clause']} (belongs to C03)")
+    rep.cov["wall_clock_lifecycle"] = wstats
     out_it, dl = internalchecks.internal_campaign(rep, "C05", it_cfgs, it_hists, 2 if quick else 6, seed, POLICIES)
     for o in dl:
         if "'livelock': True" in o["detail"] and (o.get("sched") or {}).get("policy") != "random":
